@@ -160,14 +160,18 @@ func signatureHistory(raw json.RawMessage, impl any) string {
 
 type features struct {
 	pidChange, podMove, podRecreateUnbound, deleteBeforeUpdate, nodeGoneClaimStays, quiescentWithPods bool
-	podTerminating bool // a bound, non-terminal pod with a deletionTimestamp is written
-	volPodsOnNode  int  // the largest number of live pods with PVC volumes bound to one node name at any time
+	podTerminating                                                                                    bool // a bound, non-terminal pod with a deletionTimestamp is written
+	markMany                                                                                          bool // one MarkForDeletion / UnmarkForDeletion call with several provider ids
+	markManyGap                                                                                       bool // ... in which an id without state node precedes one with a state node
+	lookupFailed                                                                                      bool // a Pod reconcile returned the error of a failed volume lookup
+	lookupFailedThenLeft                                                                              bool // ... and the pod was gone / terminal / elsewhere at a later quiescent point
+	volPodsOnNode                                                                                     int  // the largest number of live pods with PVC volumes bound to one node name at any time
 }
 
 func featuresOf(in *In, o *Out) features {
 	var f features
 	nodePid, claimPid, podNode := map[string]string{}, map[string]string{}, map[string]string{}
-	dirty := map[string]string{} // key -> last API event type while dirty
+	dirty := map[string]string{}  // key -> last API event type while dirty
 	volPod := map[string]string{} // live pod with volumes -> node name
 	for _, e := range in.Ev {
 		switch e.T {
@@ -226,6 +230,58 @@ func featuresOf(in *In, o *Out) features {
 	}
 	if o != nil {
 		vs := viewsAt(o)
+		// multi-id marks: compare with the state nodes of the previous step
+		var before *View
+		failedOn := map[string]string{} // pod name -> node it was bound to when its lookup failed
+		podNow := map[string]*Ev{}
+		next := 0
+		for _, s := range o.Steps {
+			for ; next <= s.I && next < len(in.Ev); next++ {
+				e := &in.Ev[next]
+				switch e.T {
+				case "pod":
+					podNow[e.Name] = e
+				case "podGone":
+					delete(podNow, e.Name)
+				}
+			}
+			if s.I < len(in.Ev) {
+				e := &in.Ev[s.I]
+				if (e.T == "mark" || e.T == "unmark") && len(e.Pids) > 1 {
+					f.markMany = true
+					gap := false
+					for _, pid := range e.Pids {
+						tracked := false
+						if before != nil {
+							for _, n := range before.Nodes {
+								if n.Pid == pid {
+									tracked = true
+								}
+							}
+						}
+						if !tracked {
+							gap = true
+						} else if gap {
+							f.markManyGap = true
+						}
+					}
+				}
+				if e.T == "rpf" && s.R == "err" {
+					f.lookupFailed = true
+					if p := podNow[e.Name]; p != nil {
+						failedOn[e.Name] = p.Node
+					}
+				}
+			}
+			before = vs[s.I]
+			if s.Q {
+				for name, node := range failedOn {
+					if p := podNow[name]; p == nil || p.Node != node || p.Phase == "Succeeded" || p.Phase == "Failed" {
+						f.lookupFailedThenLeft = true
+					}
+				}
+			}
+		}
 		for _, s := range o.Steps {
 			if !s.Q {
 				continue
@@ -279,6 +335,18 @@ func labelsHistory(raw json.RawMessage, impl any) []string {
 	if f.volPodsOnNode >= 3 {
 		l = append(l, "pods-with-volumes-on-one-node>=3")
 	}
+	if f.markMany {
+		l = append(l, "mark-call-with-several-ids")
+	}
+	if f.markManyGap {
+		l = append(l, "mark-call-untracked-id-before-tracked")
+	}
+	if f.lookupFailed {
+		l = append(l, "pod-reconcile-volume-lookup-failed")
+	}
+	if f.lookupFailedThenLeft {
+		l = append(l, "volume-lookup-failed-then-pod-left")
+	}
 	if len(in.Pvcs) > len(stdPvcs) {
 		l = append(l, "dense-storage-world")
 	}
@@ -317,7 +385,7 @@ func nontrivialHistory(raw json.RawMessage, impl any) bool {
 	var in In
 	json.Unmarshal(raw, &in)
 	f := featuresOf(&in, decodeOut(impl))
-	return f.quiescentWithPods && (f.pidChange || f.podMove || f.podRecreateUnbound || f.deleteBeforeUpdate || f.nodeGoneClaimStays || f.podTerminating || f.volPodsOnNode >= 3)
+	return f.quiescentWithPods && (f.pidChange || f.podMove || f.podRecreateUnbound || f.deleteBeforeUpdate || f.nodeGoneClaimStays || f.podTerminating || f.volPodsOnNode >= 3 || f.markManyGap || f.lookupFailed)
 }
 
 const implDoc = "through the real informer Node/NodeClaim/Pod controllers (Reconcile) into the real state.Cluster on the controller-runtime fake client; every exported accessor of Cluster/StateNode/NodePoolState/HostPortUsage/VolumeUsage after every step; a fresh Cluster fed the same API objects at quiescent points"
@@ -326,7 +394,7 @@ func Ops() []*core.Op {
 	return []*core.Op{
 		{
 			Name: "c11.history",
-			Doc:  "random event histories (API changes of Nodes/NodeClaims/Pods incl. provider-id changes, same-name pods, undelivered deletes, gracefully terminating pods (deletionTimestamp set, still bound and Running), many pods mounting volumes of one CSI driver on one node; reconcile deliveries in any order with duplicates; MarkForDeletion/Unmark/Nominate) " + implDoc,
+			Doc:  "random event histories (API changes of Nodes/NodeClaims/Pods incl. provider-id changes, same-name pods, undelivered deletes, gracefully terminating pods (deletionTimestamp set, still bound and Running), many pods mounting volumes of one CSI driver on one node; reconcile deliveries in any order with duplicates, Pod deliveries during which PersistentVolume/StorageClass reads fail; MarkForDeletion/Unmark with one or several provider ids incl. untracked ones, Nominate) " + implDoc,
 			N: func(t core.Tier) int {
 				if t == core.Thorough {
 					return 8000
@@ -335,7 +403,7 @@ func Ops() []*core.Op {
 			},
 			Gen:        genHistory,
 			Impl:       implHistory,
-			Rule:       "random walks over 1-3 node/claim pairs and 1-5 pod names (8..53 events quick, 8..168 thorough); 12% of the changes of an existing pod start its graceful deletion, 4% of new pods are first seen terminating; 30% dense histories (1-2 machines, a tracked node first, 4-7 pod names, six PVCs of one CSI driver, CSINode limit 0..7, 80% pod events); 5% malformed streams (colliding provider ids etc.: model correspondence only); non-trivial = a quiescent point is reached with pods on a tracked node and the history contains a provider-id change, a same-name pod on another node/unbound, an undelivered delete+recreate, a node removed while its claim stays, a bound terminating pod, or >=3 pods with volumes on one node",
+			Rule:       "random walks over 1-3 node/claim pairs and 1-5 pod names (8..53 events quick, 8..168 thorough); 12% of the changes of an existing pod start its graceful deletion, 4% of new pods are first seen terminating; 30% dense histories (1-2 machines, a tracked node first, 4-7 pod names, six PVCs of one CSI driver, CSINode limit 0..7, 80% pod events); 40% of the mark/unmark calls carry 2-4 provider ids (every machine in random order plus never-tracked ids); 22% of the deliveries of a pod with volumes run with failing PersistentVolume/StorageClass reads (fake-client interceptor); 5% malformed streams (colliding provider ids etc.: model correspondence only); non-trivial = a quiescent point is reached with pods on a tracked node and the history contains a provider-id change, a same-name pod on another node/unbound, an undelivered delete+recreate, a node removed while its claim stays, a bound terminating pod, >=3 pods with volumes on one node, a several-id mark call with an untracked id before a tracked one, or a failed volume lookup",
 			Nontrivial: nontrivialHistory,
 			Labels:     labelsHistory,
 			Signature:  signatureHistory,
@@ -343,7 +411,7 @@ func Ops() []*core.Op {
 		},
 		{
 			Name: "c11.orders",
-			Doc:  "every delivery order of the reconciles that settle 11 fixed API scripts (creation, NodeClaim update after settling, node gets its provider id, pod moves to another node, delete everything, deleting claim, pods start terminating, pods first seen terminating, four pods with volumes of one driver leave one by one / one is re-added, registration) " + implDoc,
+			Doc:  "every delivery order of the reconciles that settle 15 fixed API scripts (creation, several-id MarkForDeletion with an untracked id first / in the middle, failed volume lookup then the pod leaves / moves / is retried, NodeClaim update after settling, node gets its provider id, pod moves to another node, delete everything, deleting claim, pods start terminating, pods first seen terminating, four pods with volumes of one driver leave one by one / one is re-added, registration) " + implDoc,
 			Enum: enumHistory,
 			Impl: implHistory,
 			Rule: "exhaustive: all permutations of the settling reconciles per script; non-trivial = a quiescent point is reached with pods on a tracked node",
@@ -355,8 +423,9 @@ func Ops() []*core.Op {
 			Labels:         labelsHistory,
 			Signature:      signatureHistory,
 			Shrink:         shrinkHistory,
-			ExhaustiveNote: "all delivery orders of the settling reconciles for 11 fixed API scripts",
+			ExhaustiveNote: "all delivery orders of the settling reconciles for 15 fixed API scripts",
 		},
 		usageOp(),
+		daemonsetsOp(),
 	}
 }
